@@ -547,7 +547,70 @@ def idx_specs(world):
     return specs, bad
 
 
+def run_special(cfg):
+    """argument values / dtypes outside the main lattice"""
+    from xitorch.grad import jac, hess
+    from xitorch import LinearOperator
+    viol = []
+    what = cfg["what"]
+    n = 0
+    if what == "infparam":
+        # an explicit tensor argument with an infinite entry that the function does not touch (a bounds tensor
+        # [0.7, inf] of which only the finite entry enters): every product is finite and equals the dense one
+        x = torch.tensor([0.3, -0.8, 1.1], dtype=DT, requires_grad=True)
+        p = torch.tensor([0.7, float("inf")], dtype=DT, requires_grad=True)
+        W = torch.tensor([[1.0, 0.5, -0.2], [0.3, -1.0, 0.8]], dtype=DT)
+
+        def f(x_, p_):
+            return torch.tanh(W @ x_) * p_[0]
+        D = torch.autograd.functional.jacobian(lambda q: f(q, p), x).detach()
+        for mode in ("int", "list", "none"):
+            o = call(jac, f, (x, p), idxs={"int": 0, "list": [0], "none": None}[mode])
+            n += 1
+            if o.exc is not None:
+                viol.append(V(exc_fail(o.exc), {"idxs": mode}, idxs=mode, product="construct"))
+                continue
+            op = o.value if mode == "int" else o.value[0]
+            v = torch.tensor([0.4, -1.3, 0.6], dtype=DT)
+            u = torch.tensor([0.9, -0.4], dtype=DT)
+            for prod, got, ref in (("mv", call(op.mv, v), D @ v), ("rmv", call(op.rmv, u), D.T @ u),
+                                   ("fullmatrix", call(op.fullmatrix), D)):
+                n += 1
+                if got.exc is not None:
+                    viol.append(V(exc_fail(got.exc), {"product": prod}, idxs=mode, product=prod))
+                elif not bool(torch.isfinite(got.value).all()) or float((got.value.detach() - ref).abs().max()) > 1e-12:
+                    viol.append(V("value-mismatch:%s" % prod, {"got": rnd(got.value.detach(), 6), "want": rnd(ref, 6),
+                                                              "note": "an untouched infinite entry in another argument"},
+                                  idxs=mode, product=prod))
+    elif what == "cplxargs":
+        # idxs=None selects EVERY tensor argument that requires grad, whatever its dtype
+        x = torch.tensor([0.3, -0.8], dtype=DT, requires_grad=True)
+        z = torch.tensor([0.5 + 0.2j, -0.1 + 0.7j, 0.3 - 0.4j], dtype=torch.complex128, requires_grad=True)
+        c = torch.tensor([1.5, -0.5], dtype=DT)          # does not require grad
+
+        def f(x_, c_, z_):
+            return torch.cat([x_ * c_, (z_ * z_.conj()).real])
+        for fn, label in ((jac, "jac"),):
+            o = call(fn, f, (x, c, z), idxs=None)
+            n += 1
+            if o.exc is not None:
+                viol.append(V(exc_fail(o.exc), {"idxs": "none"}, idxs="none", product="construct"))
+                continue
+            ops = o.value
+            shapes = [tuple(q.shape) for q in ops] if isinstance(ops, (list, tuple)) else None
+            want = [(5, 2), (5, 3)]
+            if shapes != want:
+                viol.append(V("operator-count-or-shape-wrong", {"got": shapes, "want": want,
+                                                                "note": "a real and a complex argument require grad"},
+                              idxs="none", product="construct"))
+    else:
+        raise KeyError(what)
+    return {"viol": viol, "obs": {"what": what, "ok": not viol}, "status": "violation" if viol else "ok", "n": n}
+
+
 def run_case(cfg):
+    if cfg.get("mode") == "special":
+        return run_special(cfg)
     thorough = bool(cfg.get("thorough"))
     world = World(cfg)
     ck = Checker(world, cfg)
@@ -618,6 +681,13 @@ def _fcfg(mode, kind, shapes, out, extra, vseed, thorough):
 
 
 def cases(tier, seed):
+    out = _cases(tier, seed)
+    out.insert(0, {"mode": "special", "what": "cplxargs", "kind": "pure"})
+    out.insert(0, {"mode": "special", "what": "infparam", "kind": "pure"})
+    return out
+
+
+def _cases(tier, seed):
     quick = tier == "quick"
     pairs = list(itertools.product(SHN, SHN))
     if quick:
